@@ -25,6 +25,7 @@ import (
 	bitfield "github.com/OffchainLabs/go-bitfield"
 	"github.com/anishathalye/porcupine"
 	"github.com/ethereum/go-ethereum/p2p/enode"
+	"github.com/ethereum/go-ethereum/p2p/enr"
 	"github.com/holiman/uint256"
 	"github.com/zen-eth/shisui/portalwire"
 	utp "github.com/zen-eth/utp-go"
@@ -65,8 +66,16 @@ type world struct {
 func newWorld(r *lib.Run, idx int, maxUtp int, nExtra int) (*world, error) {
 	rng := r.RNG("world", idx)
 	w := &world{r: r, hub: pnode.NewHub(), store: pnode.NewKVStore(), inbox: map[enode.ID]chan *portalwire.ContentElement{}, stop: make(chan struct{})}
-	n, err := w.hub.StartNode(pnode.NodeOpts{Key: pnode.NewKey(rng), Addr: pnode.Addr4(10, 9, 0, 1, 9000), Network: portalwire.History, Versions: []uint8{0, 1},
-		Storage: w.store, MaxUtp: maxUtp, QueueCap: 64, RespTimeout: 500 * time.Millisecond, VersionsTTL: time.Hour})
+	// every second world: the node is configured the way portal/node.go does it (its version entry is the package's
+	// default list) and the version-0 offerer is a client from before version negotiation (no version entry at all)
+	legacy := idx%2 == 1
+	opts := pnode.NodeOpts{Key: pnode.NewKey(rng), Addr: pnode.Addr4(10, 9, 0, 1, 9000), Network: portalwire.History, Versions: []uint8{0, 1},
+		Storage: w.store, MaxUtp: maxUtp, QueueCap: 64, RespTimeout: 500 * time.Millisecond, VersionsTTL: time.Hour}
+	if legacy {
+		opts.Versions, opts.ExtraEntries = nil, []enr.Entry{portalwire.Versions}
+		r.Count("worlds_with_default_version_list_and_offerer_without_version_entry", 1)
+	}
+	n, err := w.hub.StartNode(opts)
 	if err != nil {
 		return nil, err
 	}
@@ -78,11 +87,18 @@ func newWorld(r *lib.Run, idx int, maxUtp int, nExtra int) (*world, error) {
 			return nil, err
 		}
 		a.Utp.VerifSetConnConfig(pnode.ShortUtpConfig())
-		o := &offerer{adv: a, version: versions[len(versions)-1]}
+		o := &offerer{adv: a}
+		if len(versions) > 0 {
+			o.version = versions[len(versions)-1]
+		}
 		w.inbox[a.ID()] = make(chan *portalwire.ContentElement, 64)
 		return o, nil
 	}
-	if w.v0, err = mk(0, []uint8{0}); err != nil {
+	v0list := []uint8{0}
+	if legacy {
+		v0list = nil
+	}
+	if w.v0, err = mk(0, v0list); err != nil {
 		return nil, err
 	}
 	if w.v1, err = mk(1, []uint8{0, 1}); err != nil {
